@@ -93,6 +93,13 @@ def run_C05(tier, seed):
     # the same alterations inside batches: a member that disagrees on a generator, bit length or degree, at any position
     dis = lambda s: any(m["v"]["pgH"] != 0 or m["v"]["pgG"] != 0 or m["v"]["n"] != s["sc"]["members"][0]["v"]["n"] or m["v"]["t"] != s["sc"]["members"][0]["v"]["t"] for m in s["sc"]["members"])
     res.append(stages.api_stage("C05", "batch", tier, seed, groups=("fm",), filter_fn=dis))
+    # a repeated triple whose second copy is altered (context, a scalar) must be rejected like any other
+    rep_ = lambda s: sum(1 for m in s["sc"]["members"] if m.get("bseed") == 7) >= 2
+    res.append(stages.api_stage("C05", "batch", tier, seed, filter_fn=rep_))
+    # alterations in two members must not be able to offset each other: proper weights on every batch (C08's check)
+    tb, _ = stages.pick_scenarios("batch", tier, seed, lambda s: verifies(s) and len(s["sc"]["members"]) >= 2 and nm_of(s) <= 16 and s["sc"]["skew"] == [0, 0, 0]
+                                  and s["sc"]["mode"] != "RecoverOnly", 6 if Q(tier) else 60, prop="C05")
+    res.append(stages.trace_stage("C05", "weights", tb, seed, module="TraceVerify", calls="verify"))
     return res
 
 
@@ -216,6 +223,8 @@ def run_C15(tier, seed):
     # the same decoder machine with the length symbolic: acceptance <=> closed form for byte strings of EVERY length
     res.append(stages.apalache_stage("C15", "CodecUnbounded", "Both", 16, negative_inv="C15Wrong",
                                      note="total length, first byte and non-canonical chunk index are symbolic naturals"))
+    # impl -> spec: structured transformations of well-formed encodings, every decoder decision validated by TLC
+    res.append(stages.codec_trace_stage("C15", tier, seed))
     # every proof the prover can output: length formula, decode(encode(p)) == p, encode(decode(b)) == b
     res.append(stages.api_stage("C15", "roundtrip", tier, seed))
     return res
@@ -227,7 +236,10 @@ def run_C16(tier, seed):
     res.append(stages.apalache_stage("C16", "CodecUnbounded", "Terminated", 16))      # decoding ends within 14 steps whatever the length
     # uniformly random strings of every length, with a random and with a plausible first byte
     raw = [{"op": "decode_raw", "len": ln, "fbmode": fm, "expect": "nopanic"} for ln in range(0, 1201 if not q else 700) for fm in (0, 1)]
+    raw += [{"op": "decode_scale", "k": k, "expect": "nopanic"} for k in (16000, 32000)]      # ~1 MiB vs ~4 MiB, ~2 MiB vs ~8 MiB
     res.append(stages.raw_cases_stage("C16", "random-strings", raw, seed))
+    # honest proofs at sizes beyond the everyday ones (up to 512 commitments, capacity 1024) must not bring the verifier down
+    res.append(stages.api_stage("C16", "complete", tier, seed, groups=("rist",), filter_fn=lambda s: s["sc"]["members"][0]["m"] >= 16))
     # hostile proof shapes against every statement shape and mode: release (overflow checks on) and dev profile
     res.append(stages.api_stage("C16", "hostile", tier, seed))
     d = stages.api_stage("C16", "hostile", tier, seed, groups=("fm",) if q else ("fm", "rist"), profile="dev", limit=150 if q else None)
@@ -366,6 +378,8 @@ def replay(rep):
     if rep["kind"] == "vectors":
         st = stages.vectors_stage("replay", rep["seed"])
         return [v["message"] for v in st.violations]
+    if rep["kind"] == "codec":
+        return stages.replay_codec(rep)
     if rep["kind"] == "mem":
         return stages.replay_mem(rep)
     if rep["kind"] == "threads":
